@@ -13,14 +13,179 @@ def _c06_case(c):
     return {"raw": c}
 
 
+# ---- in-Coq re-evaluation of a sample of sequential cases (thorough tier): cross-checks the extraction ----
+_VM_PRELUDE = """From Oras Require Import Base.Prelude Model.Stores.
+Definition sub_k (a c : list gkey) : bool := forallb (fun x => mem gkey_eqb x c) a.
+Definition sub_r (a c : list ref) : bool := forallb (fun x => mem ref_eqb x c) a.
+Definition desc_eqb (a c : desc) : bool :=
+  (d_mt a =? d_mt c) && (d_dig a =? d_dig c) && (d_size a =? d_size c) && (d_ann a =? d_ann c).
+Definition err_eqb (a c : err) : bool :=
+  match a, c with
+  | EAlreadyExists, EAlreadyExists | ENotFound, ENotFound | EMissingRef, EMissingRef
+  | EInvalidRef, EInvalidRef | EMismatch, EMismatch | EUnsupported, EUnsupported => true
+  | _, _ => false end.
+Definition out_matches (a c : out) : bool :=
+  match a, c with
+  | OOk, OOk => true
+  | OErr x, OErr y => err_eqb x y
+  | OBytes h l, OBytes h' l' => (h =? h') && (l =? l')
+  | OBool x, OBool y => Bool.eqb x y
+  | ODesc x, ODesc y => desc_eqb x y
+  | OPreds x, OPreds y => sub_k x y && sub_k y x
+  | OTags x, OTags y => sub_r x y && sub_r y x
+  | _, _ => false end.
+Definition fout_matches (a c : fout) : bool :=
+  match a, c with
+  | FO x, FO y => out_matches x y
+  | FE FDuplicateName, FE FDuplicateName | FE FOverwrite, FE FOverwrite => true
+  | _, _ => false end.
+Fixpoint all2 {A} (f : A -> A -> bool) (l1 l2 : list A) : bool :=
+  match l1, l2 with
+  | [], [] => true
+  | x :: t1, y :: t2 => f x y && all2 f t1 t2
+  | _, _ => false end.
+"""
+
+
+def _vm_key(t):
+    a, b, c = t.split(",")
+    return "(%s, %s, %s)" % (a, b, c)
+
+
+def _vm_links(l):
+    if l in ("-", ""):
+        return "[]"
+    return "[" + "; ".join(_vm_key(k) for k in l.split("+")) + "]"
+
+
+def _vm_desc(t):
+    return "(mkDesc %s %s %s %s)" % tuple(t.split(","))
+
+
+def _vm_ref(t):
+    if t == "e":
+        return "REmpty"
+    return "(%s %s)" % ("RName" if t[0] == "n" else "RDig", t[1:])
+
+
+def _vm_blob(t):
+    main, _, pre = t.partition("~")
+    p = main.split(",", 2)
+    links = _vm_links(p[2])
+    if pre:
+        q = pre.split(",", 1)
+        ph, pl = q[0], _vm_links(q[1])
+    else:
+        ph, pl = p[0], links
+    return "(mkBlob %s %s %s %s %s)" % (p[0], p[1], links, ph, pl)
+
+
+def _vm_op(t):
+    p = t.split("/")
+    k = p[0]
+    if k == "P":
+        return "Push %s %s" % (_vm_desc(p[1]), _vm_blob(p[2]))
+    if k in "FEQD":
+        return "%s %s" % ({"F": "Fetch", "E": "Exists", "Q": "Preds", "D": "Delete"}[k], _vm_desc(p[1]))
+    if k == "T":
+        return "Tag %s %s" % (_vm_desc(p[1]), _vm_ref(p[2]))
+    if k in "RU":
+        return "%s %s" % ({"R": "Resolve", "U": "Untag"}[k], _vm_ref(p[1]))
+    return "Tags"
+
+
+_VM_ERR = {"exists": "EAlreadyExists", "notfound": "ENotFound", "missingref": "EMissingRef",
+           "invalidref": "EInvalidRef", "mismatch": "EMismatch", "unsupported": "EUnsupported"}
+
+
+def _vm_out(t, filek):
+    if t == "err:dupname":
+        return "FE FDuplicateName"
+    if t == "err:overwrite":
+        return "FE FOverwrite"
+    if t == "ok":
+        o = "OOk"
+    elif t.startswith("err:"):
+        o = "OErr " + _VM_ERR[t[4:]]
+    elif t.startswith("B:"):
+        o = "OBytes %s %s" % tuple(t[2:].split(","))
+    elif t.startswith("X:"):
+        o = "OBool " + ("true" if t[2:] == "1" else "false")
+    elif t.startswith("D:"):
+        o = "ODesc " + _vm_desc(t[2:])
+    elif t.startswith("S:"):
+        o = "OPreds [" + "; ".join(_vm_key(k) for k in t[2:].split(";") if k) + "]"
+    elif t.startswith("L:"):
+        o = "OTags [" + "; ".join(_vm_ref(k) for k in t[2:].split(";") if k) + "]"
+    else:
+        raise ValueError(t)
+    return ("FO (%s)" % o) if filek else o
+
+
+def _c06_vm_sample(d, tier, coq, build, want=120):
+    import os, subprocess, collections
+    if tier != "thorough":
+        return []
+    outs = {}
+    with open(os.path.join(d, "model.txt")) as f:
+        for l in f:
+            i, _, o = l.rstrip("\n").partition(" ")
+            outs[i] = o
+    got = collections.Counter()
+    goals = []
+    with open(os.path.join(d, "cases.txt")) as f:
+        for n, l in enumerate(f):
+            i, _, c = l.rstrip("\n").partition(" ")
+            t = [x for x in c.split(" ") if not x.startswith("#")]
+            if len(t) < 3 or t[0] != "seq" or i not in outs or " " in outs[i] or n % 97 != 0:
+                continue
+            kind = t[1]
+            if got[kind] >= want // 4:
+                continue
+            filek = kind.startswith("file")
+            try:
+                ops = "[" + "; ".join(_vm_op(x) for x in t[2:]) + "]"
+                exp = "[" + "; ".join(_vm_out(x, filek) for x in outs[i].split("|")) + "]"
+            except Exception:
+                continue
+            if kind == "mem":
+                g = "all2 out_matches (snd (run mem_step mem_init %s)) %s = true" % (ops, exp)
+            elif kind == "oci":
+                g = "all2 out_matches (snd (run oci_step oci_init %s)) %s = true" % (ops, exp)
+            else:
+                g = "all2 fout_matches (snd (runf (file_step true %s %s) file_init %s)) %s = true" % (
+                    "true" if kind[4] == "1" else "false", "true" if kind[5] == "1" else "false", ops, exp)
+            got[kind] += 1
+            goals.append((i, g))
+    vdir = os.path.join(build, "vm")
+    os.makedirs(vdir, exist_ok=True)
+    vf = os.path.join(vdir, "C06_cases.v")
+    with open(vf, "w") as f:
+        f.write(_VM_PRELUDE)
+        for i, g in goals:
+            f.write("\n(* %s *)\nGoal %s.\nProof. vm_compute. reflexivity. Qed.\n" % (i, g))
+    p = subprocess.run(["coqc", "-R", coq, "Oras", "-w", "-notation-overridden", vf], cwd=vdir, timeout=1500,
+                       stdout=subprocess.PIPE, stderr=subprocess.STDOUT, text=True)
+    with open(os.path.join(d, "vm_sample.txt"), "w") as f:
+        f.write("%d goals %s rc=%d\n%s" % (len(goals), dict(got), p.returncode, p.stdout[-3000:]))
+    if p.returncode != 0:
+        return ["vm_compute re-evaluation of %d sampled histories inside Coq disagrees with the extracted runner (or does not type-check): %s"
+                % (len(goals), p.stdout[-1200:])]
+    if len(goals) < want // 3:
+        return ["vm_compute sample too small: %d goals" % len(goals)]
+    return []
+
+
+
 CONFIG = {
     "properties_file": "Properties/C06.v",
-    "proof_files": ["Base/Prelude.v", "Proofs/Stores.v", "Proofs/StoresConc.v", "Proofs/StoresConcOci.v"],
-    "model_files": ["Generated/GC06.v", "Model/Stores.v", "Model/StoresConc.v", "Model/StoresConcOci.v"],
+    "proof_files": ["Base/Prelude.v", "Proofs/Stores.v", "Proofs/StoresConc.v", "Proofs/StoresConcOci.v", "Proofs/StoresConcOci2.v", "Proofs/StoresConcFile.v"],
+    "model_files": ["Generated/GC06.v", "Model/Stores.v", "Model/StoresConc.v", "Model/StoresConcOci.v", "Model/StoresConcFile.v"],
     "extract": "XC06.v",
     "ml_main": "c06_main.ml",
     "harness": "c06",
     "case_to_replay": _c06_case,
+    "post_model": _c06_vm_sample,
     "timeout_quick": 600,
     "timeout_search": 420,
     "assumptions": [
@@ -29,11 +194,11 @@ CONFIG = {
         "OCI theorems C06_refines_oci / C06_failed_noop_oci assume a universe function U (digest -> media type, size) with every descriptor of the history canonical: Tag/Delete/Push with a descriptor whose media type or size differs from the stored one are caller inconsistencies (DESIGN section 6); satisfiable: Example C06_ex_canon",
         "OCI: AutoGC off, GC never called (C09 owns F1-F4); index.json / saveIndex persistence not modelled (C08, C10); invalid digest strings are not generated (blobPath -> ErrInvalidDigest)",
         "file store: a path is identified with the clean relative name it came from (aliasing names, traversal, symlinks: C11); pushDir/unpack, Add, restoreDuplicates with titled successors, Close, fallback size limit, ForceCAS/SkipUnpack/PreservePermissions are not modelled; annotation-set ids are numbered so that id/8 is the title",
-        "concurrency theorem: sync.Map Load/LoadOrStore, the resolver RWMutex section and the graph lock section are the atomic steps (Go memory model / scheduler: modelled, not verified); proved for the memory store and (content map, names, Predecessors; Delete exclusive; collision-free universe B) for the OCI store; file store concurrency is exercised by the harness only (quiescent-state search against the extracted sequential model)",
+        "concurrency theorem: sync.Map Load/LoadOrStore, the resolver RWMutex section and the graph lock section are the atomic steps (Go memory model / scheduler: modelled, not verified); proved for the memory store and (content map, all Resolve answers, Predecessors; Delete exclusive; collision-free universe B) for the OCI store; for the file store the per-name lock section of a named push is one atomic step (the window between digestToPath.Store and exists := true is not modelled) and the graph is compared by the harness only",
         "Predecessors results are compared as sets projected to descriptor.FromOCI (media type, digest, size); Tags compared sorted",
     ],
     "level_text": "Coq theorems over all operation histories: the memory store (cas.Memory + resolver.Memory{index,tags} + graph.Memory{nodes,predecessors,successors}) and the OCI layout store (blobs by digest + implicit tag-by-digest + Resolve/resolveBlob fallback + Untag + Delete without AutoGC + Tags) refine an abstract content map + tag map (equal outputs, equal maps, Predecessors = stored manifests whose successor list contains the node); a refused or failed operation leaves the whole concrete state unchanged; Fetch returns exactly the pushed bytes, re-push is already-exists and a no-op, Resolve returns the most recent Tag, absent content is not-found, Delete clears content and names; the Delete loop is independent of Go's map iteration order; file store: no Fetch returns bytes not matching the digest, failed operations are no-ops on the repaired code (refuted with a witness on the code as found), duplicate-name; every interleaving of the atomic steps of the memory store and of the OCI store (Delete exclusive) reaches at quiescence the state of a sequential order that keeps program order. Tied to the code by differential runs of random histories (three store kinds, option matrix, concurrent goroutines with a serialisability search on the extracted model) and an independent reference oracle",
-    "level_note": "OCI refinement is proved for canonical histories (one media type/size per digest); OCI quiescent serialisability is proved for content map + names + Predecessors (digest-string resolver entries not compared: partial); file-store concurrency is harness-only; file store refinement is by invariant + clause theorems, not by a separate abstract spec; two file-store behaviours that contradict the statement are recorded as known findings with _refuted witnesses (unnamed re-push of content present through a named file is accepted; LimitedStorage cuts trailing data)",
+    "level_note": "OCI refinement is proved for canonical histories (one media type/size per digest); OCI quiescent serialisability is proved for the content map, every Resolve answer (names and digest strings) and Predecessors, for a universe with one descriptor and one byte string per digest and references that are never another node's digest string; file-store quiescent serialisability is proved for everything but the graph (named push under its lock = one atomic step; Predecessors harness-only); file store refinement is by invariant + clause theorems, not by a separate abstract spec; two file-store behaviours that contradict the statement are recorded as known findings with _refuted witnesses (unnamed re-push of content present through a named file is accepted; LimitedStorage cuts trailing data)",
     "technique": "machine-checked proof in Coq (refinement of the concrete store state machines to a content map + tag map, invariants by induction over histories, LTS invariant over all interleavings for the memory store) + translator-regenerated media-type tables + model/implementation correspondence on random histories + independent reference oracle",
     "explanation": "theorems quantify over every finite history (and, for the memory store, every schedule of atomic steps); the harness replays random histories over small universes of real blobs/manifests/references on memory.Store, oci.Store and file.Store (IgnoreNoName/DisableOverwrite matrix), compares every result with the extracted model, judges every step against its own content/tag maps and the DAG generator's ground truth, reads the whole state back around failed operations, and for concurrent histories searches a sequential order (respecting real time) of the same operations whose final observable state matches",
 }
